@@ -8,10 +8,10 @@ import sys
 MODES = ("default", "userwarning_error", "np_print_small", "verbose", "all_submodules_imported")
 
 
-def choose(rnd, p=0.22):
+def choose(rnd, p=0.22, extra=()):
     if rnd.random() >= p:
         return "default"
-    return rnd.choice(MODES[1:])
+    return rnd.choice(MODES[1:] + tuple(extra))
 
 
 def apply(mode, ctx):
@@ -26,6 +26,11 @@ def apply(mode, ctx):
     elif mode == "np_print_small":
         import numpy as np
         np.set_printoptions(threshold=4, edgeitems=1, precision=2)
+    elif mode == "np_err_raise":
+        # numpy floating-point errors raise instead of warning (offered only to the checks whose code paths
+        # the unchanged library keeps free of 0/0 and overflow: not to the Wang-Landau check)
+        import numpy as np
+        np.seterr(all="raise")
     elif mode == "verbose":
         # the package's own verbosity switches (backend/config.py) turned on; its chatter goes nowhere
         import localcider.backend.backendtools as bt
